@@ -122,8 +122,8 @@ func findCommands(c *Ctx) []*cmdLit {
 						groups[fa.X] = cl
 						order = append(order, fa.X)
 					}
-					cl.FieldSet[f.Name()] = true
-					switch f.Name() {
+					cl.FieldSet[NameOf(f)] = true
+					switch NameOf(f) {
 					case "Keys":
 						if els, ok := sliceLitElems(st.Val); ok && len(els) > 0 {
 							if k, ok := els[0].(*ssa.Const); ok && k.Value != nil {
@@ -161,7 +161,7 @@ func findCommands(c *Ctx) []*cmdLit {
 					continue
 				}
 				f := FieldOf(fa)
-				if f == nil || f.Name() != "Action" {
+				if f == nil || NameOf(f) != "Action" {
 					continue
 				}
 				if _, isAlloc := fa.X.(*ssa.Alloc); isAlloc {
